@@ -40,17 +40,18 @@ structure MoveSig where
   delta : Volumes
   ins : Int
   eff : Int
+  tx : Nat
   deriving DecidableEq, Repr
 
-def MoveRow.sig (r : MoveRow) : MoveSig := ⟨r.key, r.delta, r.insertionDate, r.effectiveDate⟩
+def MoveRow.sig (r : MoveRow) : MoveSig := ⟨r.key, r.delta, r.insertionDate, r.effectiveDate, r.txId⟩
 
-def postingSigs (ins eff : Int) : List Posting → List MoveSig
+def postingSigs (ins eff : Int) (tx : Nat) : List Posting → List MoveSig
   | [] => []
-  | p :: ps => ⟨p.srcKey, ⟨0, p.amount⟩, ins, eff⟩ :: ⟨p.dstKey, ⟨p.amount, 0⟩, ins, eff⟩ :: postingSigs ins eff ps
+  | p :: ps => ⟨p.srcKey, ⟨0, p.amount⟩, ins, eff, tx⟩ :: ⟨p.dstKey, ⟨p.amount, 0⟩, ins, eff, tx⟩ :: postingSigs ins eff tx ps
 
 def recsSigs : List TxRec → List MoveSig
   | [] => []
-  | t :: ts => postingSigs t.insertedAt t.timestamp t.postings ++ recsSigs ts
+  | t :: ts => postingSigs t.insertedAt t.timestamp t.id t.postings ++ recsSigs ts
 
 theorem recsSigs_append (a b : List TxRec) : recsSigs (a ++ b) = recsSigs a ++ recsSigs b := by
   induction a with
@@ -58,13 +59,13 @@ theorem recsSigs_append (a b : List TxRec) : recsSigs (a ++ b) = recsSigs a ++ r
   | cons t a ih => simp [recsSigs, ih]
 
 theorem recsSigs_map_congr (f : TxRec → TxRec)
-    (hf : ∀ t, (f t).postings = t.postings ∧ (f t).insertedAt = t.insertedAt ∧ (f t).timestamp = t.timestamp)
+    (hf : ∀ t, (f t).postings = t.postings ∧ (f t).insertedAt = t.insertedAt ∧ (f t).timestamp = t.timestamp ∧ (f t).id = t.id)
     (l : List TxRec) : recsSigs (l.map f) = recsSigs l := by
   induction l with
   | nil => rfl
   | cons t l ih =>
-    obtain ⟨h1, h2, h3⟩ := hf t
-    simp [recsSigs, ih, h1, h2, h3]
+    obtain ⟨h1, h2, h3, h4⟩ := hf t
+    simp [recsSigs, ih, h1, h2, h3, h4]
 
 theorem sig_setEffective (t : List MoveRow) (n : MoveRow) : (setEffective t n).sig = n.sig := rfl
 
@@ -90,19 +91,19 @@ theorem sig_insertMoves (table news : List MoveRow) :
     funext m; exact sig_bumpAll _ m
   rw [this, List.map_append, sig_insertedRows]
 
-def moveSig (ins eff : Int) (m : Move) : MoveSig :=
-  ⟨(m.account, m.asset), if m.isSource then ⟨0, m.amount⟩ else ⟨m.amount, 0⟩, ins, eff⟩
+def moveSig (ins eff : Int) (tx : Nat) (m : Move) : MoveSig :=
+  ⟨(m.account, m.asset), if m.isSource then ⟨0, m.amount⟩ else ⟨m.amount, 0⟩, ins, eff, tx⟩
 
 theorem sig_toRows (s0 txId : Nat) (ins eff : Int) (ms : List Move) :
-    (toRows s0 txId ins eff ms).map MoveRow.sig = ms.map (moveSig ins eff) := by
+    (toRows s0 txId ins eff ms).map MoveRow.sig = ms.map (moveSig ins eff txId) := by
   induction ms generalizing s0 with
   | nil => rfl
   | cons m ms ih =>
     simp only [toRows, List.map_cons, ih]
     rfl
 
-theorem sig_fwdMoves (ins eff : Int) (pre : PCV) (ps : List Posting) :
-    (fwdMoves pre ps).map (moveSig ins eff) = postingSigs ins eff ps := by
+theorem sig_fwdMoves (ins eff : Int) (tx : Nat) (pre : PCV) (ps : List Posting) :
+    (fwdMoves pre ps).map (moveSig ins eff tx) = postingSigs ins eff tx ps := by
   induction ps generalizing pre with
   | nil => rfl
   | cons p ps ih =>
@@ -134,7 +135,7 @@ theorem MovesContent_applyOp {st st' : Store} (inv : MovesContent st) (o : Store
     · exact inv
     · intro t
       simp only [setReverted]
-      split <;> exact ⟨rfl, rfl, rfl⟩
+      split <;> exact ⟨rfl, rfl, rfl, rfl⟩
 
 theorem MovesContent_runOpsFrom (ops : List StoreOp) {st st' : Store} (inv : MovesContent st)
     (h : runOpsFrom st ops = .ok st') : MovesContent st' := by
@@ -149,43 +150,26 @@ theorem MovesContent_runOpsFrom (ops : List StoreOp) {st st' : Store} (inv : Mov
 theorem MovesContent_runOps {ops : List StoreOp} {st : Store} (h : runOps ops = .ok st) : MovesContent st :=
   MovesContent_runOpsFrom ops (by simp [MovesContent, Store.txRecs, recsSigs]) h
 
-/-! ### window sums -/
+/-! ### sums over selected moves -/
 
-def MoveSig.date (mode : DateMode) (s : MoveSig) : Int :=
-  match mode with
-  | .insertion => s.ins
-  | .effective => s.eff
+/-- sum of the deltas of the signatures of key `k` selected by `P ins eff tx` -/
+def sigVolumesP (P : Int → Int → Nat → Bool) (k : Key) (sigs : List MoveSig) : Volumes :=
+  vsum ((sigs.filter (fun s => s.key == k && P s.ins s.eff s.tx)).map (·.delta))
 
-def sigSel (w : Window) (mode : DateMode) (k : Key) (s : MoveSig) : Bool := s.key == k && w.contains (s.date mode)
+theorem sigVolumesP_append (P : Int → Int → Nat → Bool) (k : Key) (a b : List MoveSig) :
+    sigVolumesP P k (a ++ b) = (sigVolumesP P k a).add (sigVolumesP P k b) := by
+  simp [sigVolumesP, List.filter_append, vsum_append]
 
-def sigVolumes (sigs : List MoveSig) (w : Window) (mode : DateMode) (k : Key) : Volumes :=
-  vsum ((sigs.filter (sigSel w mode k)).map (·.delta))
-
-theorem sigVolumes_append (a b : List MoveSig) (w : Window) (mode : DateMode) (k : Key) :
-    sigVolumes (a ++ b) w mode k = (sigVolumes a w mode k).add (sigVolumes b w mode k) := by
-  simp [sigVolumes, List.filter_append, vsum_append]
-
-theorem movesWindowVolumes_eq (moves : List MoveRow) (w : Window) (mode : DateMode) (k : Key) :
-    movesWindowVolumes moves w mode k = sigVolumes (moves.map MoveRow.sig) w mode k := by
-  unfold movesWindowVolumes sigVolumes
-  rw [sumDeltas_eq_vsum, List.filter_map, List.map_map]
-  have h1 : (sigSel w mode k ∘ MoveRow.sig) = (fun m : MoveRow => m.key == k && w.contains (m.date mode)) := by
-    funext m
-    cases mode <;> rfl
-  have h2 : ((fun x : MoveSig => x.delta) ∘ MoveRow.sig) = (fun m : MoveRow => m.delta) := rfl
-  rw [h1, h2]
-
-theorem sigVolumes_postingSigs (ins eff : Int) (ps : List Posting) (w : Window) (mode : DateMode) (k : Key)
-    (b : Bool) (hb : ∀ (kk : Key) (d : Volumes), sigSel w mode k ⟨kk, d, ins, eff⟩ = (kk == k && b)) :
-    sigVolumes (postingSigs ins eff ps) w mode k = if b then foldVolumes k ps else Volumes.zero := by
+theorem sigVolumesP_postingSigs (P : Int → Int → Nat → Bool) (k : Key) (ins eff : Int) (tx : Nat) (ps : List Posting) :
+    sigVolumesP P k (postingSigs ins eff tx ps) = if P ins eff tx then foldVolumes k ps else Volumes.zero := by
   induction ps with
-  | nil => cases b <;> simp [postingSigs, sigVolumes, vsum, foldVolumes, inSum, outSum, Volumes.zero]
+  | nil => cases P ins eff tx <;> simp [postingSigs, sigVolumesP, vsum, foldVolumes, inSum, outSum, Volumes.zero]
   | cons p ps ih =>
-    have e : postingSigs ins eff (p :: ps) =
-        [⟨p.srcKey, ⟨0, p.amount⟩, ins, eff⟩, ⟨p.dstKey, ⟨p.amount, 0⟩, ins, eff⟩] ++ postingSigs ins eff ps := rfl
-    rw [e, sigVolumes_append, ih]
-    simp only [sigVolumes, List.filter_cons, hb, List.filter_nil]
-    cases b with
+    have e : postingSigs ins eff tx (p :: ps) =
+        [⟨p.srcKey, ⟨0, p.amount⟩, ins, eff, tx⟩, ⟨p.dstKey, ⟨p.amount, 0⟩, ins, eff, tx⟩] ++ postingSigs ins eff tx ps := rfl
+    rw [e, sigVolumesP_append, ih]
+    simp only [sigVolumesP, List.filter_cons, List.filter_nil]
+    cases P ins eff tx with
     | false => simp [vsum, Volumes.add, Volumes.zero]
     | true =>
       simp only [Bool.and_true, if_true]
@@ -195,28 +179,54 @@ theorem sigVolumes_postingSigs (ins eff : Int) (ps : List Posting) (w : Window) 
       · by_cases h1 : p.srcKey = k <;> by_cases h2 : p.dstKey = k <;>
           simp [h1, h2, vsum, Volumes.add, Volumes.zero, foldVolumes, outSum]
 
-theorem sigVolumes_recsSigs (recs : List TxRec) (w : Window) (mode : DateMode) (k : Key) :
-    sigVolumes (recsSigs recs) w mode k = volumesAt recs w mode k := by
+/-- selecting moves by (insertion date, effective date, transaction id) = selecting the transactions -/
+theorem sigVolumesP_recsSigs (P : Int → Int → Nat → Bool) (k : Key) (recs : List TxRec) :
+    sigVolumesP P k (recsSigs recs) =
+      volumesOf (recs.filter (fun t => P t.insertedAt t.timestamp t.id)) k := by
   induction recs with
-  | nil => simp [recsSigs, sigVolumes, vsum, volumesAt, volumesOf, txsIn, allPostings, foldVolumes, inSum, outSum, Volumes.zero]
+  | nil => simp [recsSigs, sigVolumesP, vsum, volumesOf, allPostings, foldVolumes, inSum, outSum, Volumes.zero]
   | cons t ts ih =>
-    have hb : ∀ (kk : Key) (d : Volumes), sigSel w mode k ⟨kk, d, t.insertedAt, t.timestamp⟩ =
-        (kk == k && w.contains (t.date mode)) := by
-      intro kk d
-      cases mode <;> rfl
-    simp only [recsSigs, sigVolumes_append, ih, sigVolumes_postingSigs _ _ _ _ _ _ _ hb]
-    unfold volumesAt volumesOf txsIn
+    simp only [recsSigs, sigVolumesP_append, ih, sigVolumesP_postingSigs]
+    unfold volumesOf
     simp only [List.filter_cons]
-    by_cases hw : w.contains (t.date mode) = true
+    by_cases hw : P t.insertedAt t.timestamp t.id = true
     · simp only [hw, if_true, allPostings, foldVolumes_append]
     · simp [hw, Volumes.zero_add]
+
+/-- sum of the deltas of the rows of key `k` selected by `P insertion_date effective_date transactions_id` -/
+def movesVolumesP (P : Int → Int → Nat → Bool) (k : Key) (moves : List MoveRow) : Volumes :=
+  sumDeltas (moves.filter fun m => m.key == k && P m.insertionDate m.effectiveDate m.txId)
+
+theorem movesVolumesP_eq (P : Int → Int → Nat → Bool) (k : Key) (moves : List MoveRow) :
+    movesVolumesP P k moves = sigVolumesP P k (moves.map MoveRow.sig) := by
+  unfold movesVolumesP sigVolumesP
+  rw [sumDeltas_eq_vsum, List.filter_map, List.map_map]
+  rfl
+
+/-- in every reachable store: sum over selected moves = fold over the selected transactions -/
+theorem movesVolumesP_eq_fold {ops : List StoreOp} {st : Store} (h : runOps ops = .ok st)
+    (P : Int → Int → Nat → Bool) (k : Key) :
+    movesVolumesP P k st.moves = volumesOf (st.txRecs.filter (fun t => P t.insertedAt t.timestamp t.id)) k := by
+  rw [movesVolumesP_eq, MovesContent_runOps h, sigVolumesP_recsSigs]
+
+/-! ### window sums -/
+
+def winSel (w : Window) (mode : DateMode) : Int → Int → Nat → Bool :=
+  fun ins eff _ => w.contains (match mode with | .insertion => ins | .effective => eff)
+
+theorem movesWindowVolumes_eq_P (moves : List MoveRow) (w : Window) (mode : DateMode) (k : Key) :
+    movesWindowVolumes moves w mode k = movesVolumesP (winSel w mode) k moves := by
+  unfold movesWindowVolumes movesVolumesP
+  cases mode <;> rfl
 
 /-- C05: the sum over the moves of an account/asset whose date lies in the window — the
     way the point-in-time SQL aggregates — equals the Spec fold `volumesAt`. -/
 theorem movesWindowVolumes_eq_fold {ops : List StoreOp} {st : Store} (h : runOps ops = .ok st)
     (w : Window) (mode : DateMode) (k : Key) :
     movesWindowVolumes st.moves w mode k = volumesAt st.txRecs w mode k := by
-  rw [movesWindowVolumes_eq, MovesContent_runOps h, sigVolumes_recsSigs]
+  rw [movesWindowVolumes_eq_P, movesVolumesP_eq_fold h]
+  unfold volumesAt txsIn
+  cases mode <;> rfl
 
 /-! ### the latest effective move carries the fold -/
 
@@ -328,5 +338,79 @@ theorem effectiveVolumesAt_eq_window {moves : List MoveRow} (hinv : PCEV_Inv mov
       exact ⟨a.trans h2, by omega⟩
     · rintro ⟨a, b⟩
       exact ⟨a.trans h2.symm, h4 c hc a b⟩
+
+
+/-! ### aggregated balances -/
+
+def aggFrom (m : Map String Volumes) (av : PCV) : Map String Volumes :=
+  av.foldl (fun m e => m.insertWith Volumes.add e.1.2 e.2) m
+
+def hasAsset (s : String) (av : PCV) : Bool := av.any (fun e => e.1.2 == s)
+
+def sumVol (s : String) (av : PCV) : Volumes := ⟨inputsIn s av, outputsIn s av⟩
+
+theorem sumVol_cons (s : String) (k : Key) (v : Volumes) (av : PCV) :
+    sumVol s ((k, v) :: av) = (if k.2 = s then v else Volumes.zero).add (sumVol s av) := by
+  unfold sumVol inputsIn outputsIn
+  simp only [Map.sumBy]
+  by_cases h : k.2 = s <;> simp [h, Volumes.add, Volumes.zero]
+
+theorem get?_aggFrom {m : Map String Volumes} (hw : Map.WF m) (av : PCV) (s : String) :
+    (aggFrom m av).get? s =
+      match m.get? s with
+      | some v0 => some (v0.add (sumVol s av))
+      | none => if hasAsset s av then some (sumVol s av) else none := by
+  induction av generalizing m with
+  | nil =>
+    simp only [aggFrom, List.foldl_nil, hasAsset, List.any_nil]
+    cases m.get? s with
+    | none => rfl
+    | some v0 =>
+      have : sumVol s [] = Volumes.zero := rfl
+      simp [this, Volumes.add_zero]
+  | cons e av ih =>
+    obtain ⟨k, v⟩ := e
+    have e1 : aggFrom m ((k, v) :: av) = aggFrom (m.insertWith Volumes.add k.2 v) av := rfl
+    rw [e1, ih (Map.WF_insertWith _ _ _ hw), Map.get?_insertWith _ _ _ hw, sumVol_cons]
+    by_cases hk : s = k.2
+    · subst hk
+      simp only [if_true]
+      cases m.get? k.2 with
+      | none => simp [hasAsset, Volumes.add]
+      | some v0 => simp [Volumes.add_assoc]
+    · have hk' : ¬ k.2 = s := fun e => hk e.symm
+      simp only [if_neg hk, if_neg hk', Volumes.zero_add]
+      cases m.get? s with
+      | none =>
+        have hb : (k.2 == s) = false := by simpa using hk'
+        simp only [hasAsset, List.any_cons, hb, Bool.false_or]
+        rfl
+      | some v0 => rfl
+
+/-- C01: every row of the aggregated-balances read (empty filter, no PIT) balances: total input
+    of the asset = total output. -/
+theorem aggregated_balanced {ops : List StoreOp} {st : Store} (h : runOps ops = .ok st) (s : String) (v : Volumes)
+    (hv : (aggregatedVolumes st.accountsVolumes).get? s = some v) : v.input = v.output := by
+  have hg := get?_aggFrom (m := []) Map.WF_nil st.accountsVolumes s
+  have : aggregatedVolumes st.accountsVolumes = aggFrom [] st.accountsVolumes := rfl
+  rw [this, hg] at hv
+  simp only [Map.get?_nil] at hv
+  have hnet := (StoreInv_runOps h).net s
+  rw [netIn_eq] at hnet
+  by_cases ha : hasAsset s st.accountsVolumes = true
+  · simp only [ha, if_true, Option.some.injEq] at hv
+    rw [← hv]
+    simp only [sumVol]
+    omega
+  · simp [ha] at hv
+
+theorem foldl_add_volumesAt (txs : List TxRec) (w : Window) (mode : DateMode) (s : String) (accts : List String) (v0 : Volumes) :
+    (accts.foldl (fun acc a => acc.add (volumesAt txs w mode (a, s))) v0).balance =
+      v0.balance + sumOver accts (fun a => balanceAt txs w mode (a, s)) := by
+  induction accts generalizing v0 with
+  | nil => simp [sumOver]
+  | cons a accts ih =>
+    simp only [List.foldl_cons, ih, sumOver_cons, balance_add, balanceAt]
+    omega
 
 end Ledger.Spec
